@@ -100,6 +100,9 @@ def oracle(w, obs, meta, out, counts):
     def v(clause, field, detail):
         out.append(core.v(clause, base + (field,), detail, case, size=size))
 
+    if w.market_identity:
+        who, mid_, same, book = w.market_identity[0]
+        v("C11.c", "market-identity", "strategy %s was handed a market object for %s that is %s the framework's registered market (book attached: %s): its adopted orders are invisible to it" % (who, mid_, "" if same else "NOT", book))
     local = []
     for m in fw.markets:
         for o in m.blotter:
@@ -244,6 +247,8 @@ def _job(args):
         if crash_image:
             b["crash"] = 1
         w = livex.LiveWorld(script, hooks=o, budgets=b, fault_plan=fault, async_place=async_place, strategies=("S0", "S1"), skip_strategies=skip, line_markets=_line_markets(name))
+        if crash_image and crash_image.endswith("-late"):
+            w.crash_images = (crash_image,)
         w.start()
         return w
 
@@ -314,6 +319,9 @@ def jobs_for(tier):
     for name in ("place", "place-cancel", "place-cancelpart", "place-replace", "two-strategies", "place-sp", "place-handicap", "place-line") + (("place-update", "place2-cancel2") if thorough else ()):
         jobs.append((name, b1, None, False, "executable", ()))
         jobs.append((name, b1, None, False, "executable", ("S1",) if name == "two-strategies" else ("S0",)))
+        if name in ("place", "place-cancel", "two-strategies", "place-sp"):
+            # the restarted instance sees the order-stream image before (or after) the first market books
+            jobs.append((name, b1, None, False, "executable-late", ()))
     return jobs
 
 
@@ -358,7 +366,10 @@ def replay(rep):
     b = dict(m["budgets"])
     if m["image"]:
         b["crash"] = 1
-    w = livex.LiveWorld(SCRIPTS[m["script"]], hooks=o, budgets=b, fault_plan=fault, async_place=m["async_place"], strategies=("S0", "S1"), skip_strategies=tuple(m["skip"]), line_markets=_line_markets(m["script"])).start()
+    w = livex.LiveWorld(SCRIPTS[m["script"]], hooks=o, budgets=b, fault_plan=fault, async_place=m["async_place"], strategies=("S0", "S1"), skip_strategies=tuple(m["skip"]), line_markets=_line_markets(m["script"]))
+    if m.get("image") and str(m["image"]).endswith("-late"):
+        w.crash_images = (m["image"],)
+    w.start()
     out = []
     counts = {k: 0 for k in ("clause:C11.a", "clause:C11.b", "clause:C11.c", "clause:C11.d", "clause:C11.e", "adopted_bets_checked", "completed_orders_checked", "unknown_strategy_bets")}
     try:
